@@ -113,7 +113,15 @@ func VerifYield(site uint32) {
 		// idle, so the simulated clock (and the driver) cannot advance.
 		// Spinning takes time in reality; make it take simulated time.
 		verifSpinBreaks++
-		timeSleep(1000)
+		// the longer the spin lasts without a driver step, the longer each
+		// break sleeps (1us doubling every 512 breaks up to ~1ms), so a
+		// loop spinning towards an event 300 simulated ms away gets there
+		// in thousands of breaks rather than hundreds of thousands
+		sh := (verifSpin - 200000) / 512
+		if sh > 10 {
+			sh = 10
+		}
+		timeSleep(1000 << sh)
 		return
 	}
 	if verifSimRandn(65536) < x {
